@@ -3,13 +3,187 @@
 package eq
 
 // Contracts for package eq, checked by /verif/govc.  Comment-only file.
+//
+// Property C09 (loop-free part): every Eq instance / combinator is an
+// equivalence relation (under the hypothesis that its component instances
+// are) and holds exactly when the compared components are pairwise equal.
+// Seq / Slice / GoMap / FpMap (loops) and Bytes / Time (external functions)
+// are not covered here.
 
 //@ import "github.com/csgura/fp/internal/veriflaws"
+//@ import "github.com/csgura/fp/hlist"
+//@ import "github.com/csgura/fp/lazy"
 //
-//@ lemma tuple2Equiv[A1, A2 any](e1 fp.Eq[A1], e2 fp.Eq[A2], x fp.Tuple2[A1, A2], y fp.Tuple2[A1, A2], z fp.Tuple2[A1, A2])
+// ---- New ------------------------------------------------------------------
+//
+//@ lemma newEquiv[T any](f func(a, b T) bool, x T, y T, z T)
 //@   prop C09
-//@   requires veriflaws.EqLaws(e1) && veriflaws.EqLaws(e2)
-//@   ensures Tuple2(e1, e2).Eqv(x, x)
-//@   ensures Tuple2(e1, e2).Eqv(x, y) == Tuple2(e1, e2).Eqv(y, x)
-//@   ensures Tuple2(e1, e2).Eqv(x, y) && Tuple2(e1, e2).Eqv(y, z) ==> Tuple2(e1, e2).Eqv(x, z)
-//@   ensures Tuple2(e1, e2).Eqv(x, y) == (e1.Eqv(x.I1, y.I1) && e2.Eqv(x.I2, y.I2))
+//@   requires veriflaws.RelEquivalence(f)
+//@   ensures New(f).Eqv(x, y) == f(x, y)
+//@   tag def
+//@   ensures New(f).Eqv(x, x)
+//@   tag refl
+//@   ensures New(f).Eqv(x, y) == New(f).Eqv(y, x)
+//@   tag sym
+//@   ensures New(f).Eqv(x, y) && New(f).Eqv(y, z) ==> New(f).Eqv(x, z)
+//@   tag trans
+//@   ensures veriflaws.EqLaws(New(f))
+//@   tag laws
+//
+// ---- Given / String / HNil --------------------------------------------------
+//
+//@ lemma givenEquiv[T comparable](x T, y T, z T)
+//@   prop C09
+//@   ensures Given[T]().Eqv(x, y) == (x == y)
+//@   tag def
+//@   ensures Given[T]().Eqv(x, x)
+//@   tag refl
+//@   ensures Given[T]().Eqv(x, y) == Given[T]().Eqv(y, x)
+//@   tag sym
+//@   ensures Given[T]().Eqv(x, y) && Given[T]().Eqv(y, z) ==> Given[T]().Eqv(x, z)
+//@   tag trans
+//@   ensures veriflaws.EqLaws(Given[T]()) && veriflaws.EqIsIdentity(Given[T]())
+//@   tag laws
+//
+//@ lemma givenEquivInt(x int64, y int64, z int64)
+//@   prop C09
+//@   ensures Given[int64]().Eqv(x, y) == (x == y)
+//@   tag def
+//@   ensures veriflaws.EqLaws(Given[int64]())
+//@   tag laws
+//
+//@ lemma stringEquiv(x string, y string, z string)
+//@   prop C09
+//@   ensures String.Eqv(x, y) == (x == y)
+//@   tag def
+//@   ensures String.Eqv(x, x)
+//@   tag refl
+//@   ensures String.Eqv(x, y) == String.Eqv(y, x)
+//@   tag sym
+//@   ensures String.Eqv(x, y) && String.Eqv(y, z) ==> String.Eqv(x, z)
+//@   tag trans
+//
+//@ lemma hnilEquiv(x hlist.Nil, y hlist.Nil)
+//@   prop C09
+//@   ensures HNil.Eqv(x, y)
+//@   tag def
+//@   ensures veriflaws.EqLaws(HNil)
+//@   tag laws
+//
+// ---- Tuple1 -----------------------------------------------------------------
+//
+//@ lemma tuple1Equiv[A1 any](e1 fp.Eq[A1], x fp.Tuple1[A1], y fp.Tuple1[A1], z fp.Tuple1[A1])
+//@   prop C09
+//@   requires veriflaws.EqLaws(e1)
+//@   ensures Tuple1(e1).Eqv(x, y) == e1.Eqv(x.I1, y.I1)
+//@   tag def
+//@   ensures Tuple1(e1).Eqv(x, x)
+//@   tag refl
+//@   ensures Tuple1(e1).Eqv(x, y) == Tuple1(e1).Eqv(y, x)
+//@   tag sym
+//@   ensures Tuple1(e1).Eqv(x, y) && Tuple1(e1).Eqv(y, z) ==> Tuple1(e1).Eqv(x, z)
+//@   tag trans
+//@   ensures veriflaws.EqLaws(Tuple1(e1))
+//@   tag laws
+//
+// ---- Option -----------------------------------------------------------------
+//
+//@ lemma optionEquiv[T any](e fp.Eq[T], x fp.Option[T], y fp.Option[T], z fp.Option[T])
+//@   prop C09
+//@   requires veriflaws.EqLaws(e)
+//@   ensures Option(e).Eqv(x, y) == ((x.IsEmpty() && y.IsEmpty()) || (x.IsDefined() && y.IsDefined() && e.Eqv(x.Get(), y.Get())))
+//@   tag def
+//@   ensures Option(e).Eqv(x, x)
+//@   tag refl
+//@   ensures Option(e).Eqv(x, y) == Option(e).Eqv(y, x)
+//@   tag sym
+//@   ensures Option(e).Eqv(x, y) && Option(e).Eqv(y, z) ==> Option(e).Eqv(x, z)
+//@   tag trans
+//@   ensures veriflaws.EqLaws(Option(e))
+//@   tag laws
+//
+//@ lemma optionCases[T any](e fp.Eq[T], a T, b T)
+//@   prop C09
+//@   ensures Option(e).Eqv(fp.None[T](), fp.None[T]())
+//@   ensures !Option(e).Eqv(fp.Some(a), fp.None[T]()) && !Option(e).Eqv(fp.None[T](), fp.Some(a))
+//@   ensures Option(e).Eqv(fp.Some(a), fp.Some(b)) == e.Eqv(a, b)
+//
+// ---- Ptr / PtrGiven -----------------------------------------------------------
+//
+//@ lemma ptrEquiv[T any](e fp.Eq[T], x *T, y *T, z *T)
+//@   prop C09
+//@   requires veriflaws.EqLaws(e)
+//@   ensures Ptr(lazy.Done(e)).Eqv(x, y) == ((x == nil && y == nil) || (x != nil && y != nil && e.Eqv(*x, *y)))
+//@   tag def
+//@   ensures Ptr(lazy.Done(e)).Eqv(x, x)
+//@   tag refl
+//@   ensures Ptr(lazy.Done(e)).Eqv(x, y) == Ptr(lazy.Done(e)).Eqv(y, x)
+//@   tag sym
+//@   ensures Ptr(lazy.Done(e)).Eqv(x, y) && Ptr(lazy.Done(e)).Eqv(y, z) ==> Ptr(lazy.Done(e)).Eqv(x, z)
+//@   tag trans
+//@   ensures veriflaws.EqLaws(Ptr(lazy.Done(e)))
+//@   tag laws
+//
+//@ lemma ptrGivenEquiv[T comparable](x *T, y *T, z *T)
+//@   prop C09
+//@   ensures PtrGiven[T]().Eqv(x, y) == ((x == nil && y == nil) || (x != nil && y != nil && *x == *y))
+//@   tag def
+//@   ensures PtrGiven[T]().Eqv(x, x)
+//@   tag refl
+//@   ensures PtrGiven[T]().Eqv(x, y) == PtrGiven[T]().Eqv(y, x)
+//@   tag sym
+//@   ensures PtrGiven[T]().Eqv(x, y) && PtrGiven[T]().Eqv(y, z) ==> PtrGiven[T]().Eqv(x, z)
+//@   tag trans
+//
+// ---- ContraMap ----------------------------------------------------------------
+//
+//@ lemma contraMapEquiv[T, U any](e fp.Eq[T], fn func(U) T, x U, y U, z U)
+//@   prop C09
+//@   requires veriflaws.EqLaws(e)
+//@   ensures ContraMap(e, fn).Eqv(x, y) == e.Eqv(fn(x), fn(y))
+//@   tag def
+//@   ensures ContraMap(e, fn).Eqv(x, x)
+//@   tag refl
+//@   ensures ContraMap(e, fn).Eqv(x, y) == ContraMap(e, fn).Eqv(y, x)
+//@   tag sym
+//@   ensures ContraMap(e, fn).Eqv(x, y) && ContraMap(e, fn).Eqv(y, z) ==> ContraMap(e, fn).Eqv(x, z)
+//@   tag trans
+//@   ensures veriflaws.EqLaws(ContraMap(e, fn))
+//@   tag laws
+//
+// ---- HCons ----------------------------------------------------------------------
+//
+//@ lemma hconsEquiv[H any, T hlist.HList](he fp.Eq[H], te fp.Eq[T], x hlist.Cons[H, T], y hlist.Cons[H, T], z hlist.Cons[H, T])
+//@   prop C09
+//@   inst VT_0, hlist.Cons[VT_1, hlist.Nil]
+//@   requires veriflaws.EqLaws(he) && veriflaws.EqLaws(te)
+//@   ensures HCons(he, te).Eqv(x, y) == (he.Eqv(hlist.Head(x), hlist.Head(y)) && te.Eqv(hlist.Tail(x), hlist.Tail(y)))
+//@   tag def
+//@   ensures HCons(he, te).Eqv(x, x)
+//@   tag refl
+//@   ensures HCons(he, te).Eqv(x, y) == HCons(he, te).Eqv(y, x)
+//@   tag sym
+//@   ensures HCons(he, te).Eqv(x, y) && HCons(he, te).Eqv(y, z) ==> HCons(he, te).Eqv(x, z)
+//@   tag trans
+//@   ensures veriflaws.EqLaws(HCons(he, te))
+//@   tag laws
+//
+//@ lemma hcons2Def[A1, A2 any](e1 fp.Eq[A1], e2 fp.Eq[A2], a1 A1, a2 A2, b1 A1, b2 A2)
+//@   prop C09
+//@   ensures HCons(e1, HCons(e2, HNil)).Eqv(hlist.Concat(a1, hlist.Concat(a2, hlist.Empty())), hlist.Concat(b1, hlist.Concat(b2, hlist.Empty()))) == (e1.Eqv(a1, b1) && e2.Eqv(a2, b2))
+//
+// ---- Tuple2 .. Tuple21 ----------------------------------------------------------
+//
+//@ schema N=2..21
+//@ lemma tuple{N}Equiv[<<i=1..N|, |A$i>> any](<<i=1..N|, |e$i fp.Eq[A$i]>>, x fp.Tuple{N}[<<i=1..N|, |A$i>>], y fp.Tuple{N}[<<i=1..N|, |A$i>>], z fp.Tuple{N}[<<i=1..N|, |A$i>>])
+//@   prop C09
+//@   requires <<i=1..N| && |veriflaws.EqLaws(e$i)>>
+//@   ensures Tuple{N}(<<i=1..N|, |e$i>>).Eqv(x, y) == (<<i=1..N| && |e$i.Eqv(x.I$i, y.I$i)>>)
+//@   tag def
+//@   ensures Tuple{N}(<<i=1..N|, |e$i>>).Eqv(x, x)
+//@   tag refl
+//@   ensures Tuple{N}(<<i=1..N|, |e$i>>).Eqv(x, y) == Tuple{N}(<<i=1..N|, |e$i>>).Eqv(y, x)
+//@   tag sym
+//@   ensures Tuple{N}(<<i=1..N|, |e$i>>).Eqv(x, y) && Tuple{N}(<<i=1..N|, |e$i>>).Eqv(y, z) ==> Tuple{N}(<<i=1..N|, |e$i>>).Eqv(x, z)
+//@   tag trans
+//@ schema end
